@@ -1433,6 +1433,7 @@ class SuccessionDiagram:
             m_data = self.node_data(m_id)
             m_data["expanded"] = True
 
+        self._reset_attractor_data(node_id)
         node["expanded"] = True
         node["skipped"] = True
 
@@ -1481,6 +1482,7 @@ class SuccessionDiagram:
                     self._ensure_edge(node_id, m_id, m_trap)
                     skip_edges += 1
 
+            self._reset_attractor_data(node_id)
             node["skipped"] = True
             node["expanded"] = True
             skipped_nodes += 1
@@ -1493,6 +1495,19 @@ class SuccessionDiagram:
             print(f"Skipped {skipped_nodes} nodes.")
 
         return skipped_nodes
+
+    def _reset_attractor_data(self, node_id: int):
+        """
+        An internal method that erases the attractor data of the given node.
+
+        This has to be done whenever an unexpanded node obtains successors
+        (by any means), because the data computed for an unexpanded node also
+        covers the attractors of these successors and is thus no longer valid.
+        """
+        node = self.node_data(node_id)
+        node["attractor_candidates"] = None
+        node["attractor_seeds"] = None
+        node["attractor_sets"] = None
 
     def _update_node_depth(self, node_id: int, parent_id: int):
         """
